@@ -86,7 +86,8 @@ def _const_value(j):
         return ct.MapType({_const_value(k): _const_value(v) for k, v in j["v"]})
     if t == "timestamp":
         import datetime
-        return ct.TimestampType(datetime.datetime.fromtimestamp(0, datetime.timezone.utc) + datetime.timedelta(microseconds=j["us"]))
+        tz = datetime.timezone(datetime.timedelta(minutes=j.get("off", 0)))
+        return ct.TimestampType((datetime.datetime.fromtimestamp(0, datetime.timezone.utc) + datetime.timedelta(microseconds=j["us"])).astimezone(tz))
     if t == "duration":
         import datetime
         return ct.DurationType(datetime.timedelta(microseconds=j["us"]))
@@ -206,6 +207,8 @@ def ref_eq(sa, pa, sb, pb):
         return z3.And([x == y for x, y in zip(ta, tb)]) if ta else z3.BoolVal(True)
     if ka == "null":
         return z3.BoolVal(True)
+    if ka in ("timestamp", "duration"):
+        return z3.BoolVal(sa[1]["us"] == sb[1]["us"])  # concrete instants / lengths (same instant whatever the written offset)
     if ka == "list":
         if len(sa[1]) != len(sb[1]):
             return z3.BoolVal(False)
@@ -244,6 +247,8 @@ def ref_lt(sa, pa, sb, pb):
     if ka in ("string", "bytes"):
         from ..sym.strs import lt_term
         return lt_term(_terms(sa, pa), _terms(sb, pb), True)
+    if ka in ("timestamp", "duration"):
+        return z3.BoolVal(sa[1]["us"] < sb[1]["us"])
     return None
 
 
